@@ -1,7 +1,8 @@
 // Driver for C16 (one stored / one deleted event per message, causal order): histories under
 // every limit combination on both stores, delivered through the real StoreManager.Deliver,
 // observed by listeners registered through the public extension.Host; plus forced schedules of
-// the asynchronous broker (kind "sched").
+// the asynchronous broker (kind "sched") and forced schedules of concurrent store operations against
+// each other and the size enforcer through the mem.* verifhook points (kind "conc").
 // See package sd (shared with C07 and C08).
 package main
 
@@ -33,11 +34,19 @@ func gen(g *vh.Gen) {
 		sd.EmitHistory(g, backends, mode, capN, maxkb, names, ops)
 	}
 	sd.GenSched(g)
+	sd.GenSched2(g)
+	sd.GenConc(g)
 }
 
 func exec(kind string, in []string) []string {
 	if kind == "sched" {
 		return sd.ExecSched(in)
+	}
+	if kind == "sched2" {
+		return sd.ExecSched2(in)
+	}
+	if kind == "conc" {
+		return sd.ExecConc(in)
 	}
 	if kind == "xbroker" {
 		return sd.ExecXBroker(in) // manual replay of the cross-broker schedule, never generated
